@@ -540,7 +540,11 @@ func (st *funcState) visit(ins ssa.Instruction) bool {
 			ch = st.setRoots(x, st.rootsOf(x.X))
 		}
 	case *ssa.Lookup:
-		if pointerLike(x.Type()) {
+		vt := x.Type()
+		if tup, ok := vt.(*types.Tuple); ok && x.CommaOk && tup.Len() == 2 {
+			vt = tup.At(0).Type() // v, ok := m[k]: the tuple carries the value's provenance (Extract hands it on)
+		}
+		if pointerLike(vt) {
 			ch = st.setRoots(x, st.loaded(st.rootsOf(x.X)))
 		}
 	case *ssa.UnOp:
